@@ -516,6 +516,17 @@ def run(ctx, replay=None):
                 'what_it_means': 'the values reported to the user differ from the values of the schedule the solver found (as Solution.v builds them)'})
             common.violation(ctx, path)
         cov['reported_values_slice'] = {'programs': len(sl), **sstats, 'breaks': len(sbreaks)}
+        if ctx.prop == 'C09':
+            # a solver object created early, with an SMT logic that has no arrays: the levels it returns still obey the buffer
+            ev = common.pmap(engine_sol.early_solver_validity, [(i, p, ctx.seed) for i, p in enumerate(sl)])
+            st2 = collections.Counter(str(e.get('status')) for e in ev)
+            for e in [e for e in ev if e.get('status') == 'INVALID'][:2]:
+                path = common.write_replay(ctx, 'early', {
+                    'kind': 'violation', 'property': 'C09', 'what': 'the schedule returned by a solver created before the buffers were declared '
+                    '(logics=%s) violates the buffer assertions' % e.get('logics'), 'detail': e.get('detail'),
+                    'program': terms.dump(sl[e['idx']]), 'program_pretty': pretty(sl[e['idx']])})
+                common.violation(ctx, path)
+            cov['early_solver_with_logic'] = dict(st2)
     if ctx.prop == 'C18' and replay is None:
         pr = common.pmap(refused_problem_probe, [0])[0]
         if pr.get('crashed'):
